@@ -386,8 +386,9 @@ fn gen(a: &Args) {
 }
 
 /// Oracle only: find_key == plain binary search on every sorted page, and the window returned by the
-/// scalar narrowing keeps the answer inside it.  A failing line is tagged `tag=eqcut` when the real AVX2
-/// narrowing returned a window that leaves out a slot whose prefix equals the probe's (the recorded defect).
+/// scalar narrowing keeps the answer inside it.  A failing line is tagged `tag=eqcut` (diagnostic only) when the
+/// real AVX2 narrowing returned a window that leaves out a slot whose prefix equals the probe's - the defect
+/// F-C30-1/2 fixed by /repo commit 6f8c0a4; no finding is open, so every FAIL line is a violation.
 fn search(a: &Args) {
     let mut rng = Rng::new(a.seed ^ 0xC30_5EA7);
     let mut fails: Vec<String> = vec![];
@@ -414,7 +415,7 @@ fn search(a: &Args) {
             if !ok && fails.len() < 60 {
                 let mut line = replay_line(&keys, std::slice::from_ref(p));
                 if sc_ok && eqcut(&page, &keys, p) {
-                    // the recorded defect: keep a few examples only, go on looking for anything else
+                    // the (formerly recorded) equal-prefix defect: keep a few examples only, go on looking for anything else
                     tagged += 1;
                     if tagged > 8 { continue; }
                     line.push_str(" tag=eqcut");
